@@ -1,6 +1,7 @@
 package table
 
 import (
+	"bytes"
 	"errors"
 	"strings"
 
@@ -295,6 +296,14 @@ func (join *JoinTable) saveRight(row *Row) error {
 		return err
 	}
 	for _, onerow := range rows {
+		// ListIndex matches by prefix: skip the rows of another right row whose primary key only starts with this one
+		fk, err := join.left.index(onerow, indexName)
+		if err != nil {
+			return err
+		}
+		if !bytes.Equal(fk, indexValue) {
+			continue
+		}
 		olddata := &JoinData{Right: row.old, Left: onerow.Data}
 		if onerow.Ty == Update {
 			olddata.Left = onerow.old
